@@ -103,6 +103,11 @@ class C05(Prop):
             return case
         n = rng.randint(2, 8)
         base = lang.gen_signal(rng, n=n, start=Fr(0) if rng.random() < 0.8 else None)
+        epoch = rng.random() < 0.06
+        if epoch:
+            # time-stamps of epoch size (seconds since 1970, sampled every 0.25..2.5 s): consecutive stamps differ by
+            # 1e-10 of their magnitude - exactly representable, and different
+            base = lang.gen_signal(rng, n=n, start=Fr(rng.choice([1758800000, 1700000000, 4000000000])) + Fr(rng.randint(0, 3), 4))
         sig = dict((k, [(t, rng.choice(lang.SMALL)) for (t, _) in base]) for k in names)
         scheds = [[], list(range(1, n))]
         for _ in range(3):
@@ -113,7 +118,7 @@ class C05(Prop):
         if len(names) > 1 and rng.random() < 0.5:
             indep = dict((k, sorted(rng.sample(range(1, n), rng.randint(1, n - 1)))) for k in names)
         case = {'formula': f, 'signals': sig_text(sig), 'schedules': scheds, 'indep': indep, 'pastify': pastify,
-                'structs': rng.random() < 0.1}
+                'structs': rng.random() < 0.1, 'epoch': epoch}
         if pastify and lang.depth(f) >= 2 and rng.random() < 0.3:
             # the same formula written with named sub-specifications (a name may be referenced below further
             # look-ahead than its own assertion has): add_sub_spec or one multi-assertion text, then pastify()
@@ -190,6 +195,8 @@ class C05(Prop):
         rel = rel_for(f)
         same = lambda a, b: refd.same(a, b, rel)
         ia, sd_extra = case.get('ia'), None
+        if case.get('epoch'):
+            v.info['class:epoch-size-stamps'] = 1
         try:
             if ia:
                 # interface-aware semantics on both sides (online and offline); the reference overrides the
